@@ -288,6 +288,12 @@ package orb
 //@   pure
 //@   ensures result == geomEq(g1, g2)
 
+// noNil(g): no collection at any nesting depth has a nil member
+//@ spec noNil(g Geometry) bool = istype(g, Collection) ==> (forall i :: 0 <= i && i < len(as(g, Collection)) ==> as(g, Collection)[i] != nil && noNil(as(g, Collection)[i]))
+
+//@ func (Collection).Dimensions(c)
+//@   requires forall i :: 0 <= i && i < len(c) ==> c[i] != nil && noNil(c[i])
+
 // ---------------------------------------------------------------- LineString
 
 //@ func (LineString).Reverse(ls)
